@@ -262,7 +262,8 @@ fn ideal(t: &T, env: &[Option<i32>], f: &mut Feat, real: Option<&SymExpr>) -> Id
                             if (x == 0 && y == 1) || (x == 1 && y == 0) {
                                 f.bcast01 = true;
                             }
-                            Ok(x.max(y))
+                            // a size of 1 broadcasts to the other size (also to 0), else max
+                            Ok(if x == 1 { y } else if y == 1 { x } else { x.max(y) })
                         }
                     };
                     match r {
